@@ -561,8 +561,9 @@ pub fn run_property(prop: &Prop, tier: Tier, seed: u64, root: PathBuf, only_stre
                     std::process::exit(2);
                 }
                 for (key, elapsed, v) in sh_ref.stalled(Duration::from_secs(20)) {
-                    if elapsed > Duration::from_secs(900) {
-                        println!("INCONCLUSIVE property={} a case has been running for 15 minutes", sh_ref.id);
+                    let limit = if sh_ref.stall_is_violation() { 900 } else { 180 };
+                    if elapsed > Duration::from_secs(limit) {
+                        println!("INCONCLUSIVE property={} a case has been running for {limit} s", sh_ref.id);
                         std::process::exit(2);
                     }
                     if handled.insert(key) {
